@@ -51,10 +51,18 @@ class Inst:
             self._fluid = flow_properties(shipped_table(self.table), self.pi)
         return self._fluid
 
-    def new(self, fresh_fluid: bool = False):
+    @property
+    def pf_alt(self) -> float:
+        """The other scalar a caller may assign to `pressure_fracface` between calls (Reservoir.tla: setpf / KA)."""
+        return float(0.5 * self.pf + 0.25 * self.pi)
+
+    def new(self, fresh_fluid: bool = False, pf: float | None = None):
         from bluebonnet.flow import IdealReservoir, SinglePhaseReservoir  # noqa: PLC0415
 
         fluid = flow_properties(shipped_table(self.table), self.pi) if fresh_fluid else self.fluid()
+        if pf is not None:
+            cls = IdealReservoir if self.kind == "ideal" else SinglePhaseReservoir
+            return cls(self.nx, pf, self.pi, fluid)
         if self.kind == "twophase":
             from bluebonnet.flow import TwoPhaseReservoir  # noqa: PLC0415
 
@@ -73,6 +81,8 @@ class Inst:
             return self.sched_S.copy()
         if s == "K":
             return np.full(len(self.sched_S), float(self.pf))
+        if s == "KA":
+            return np.full(len(self.sched_S), self.pf_alt)
         if s == "O":
             return np.array([float(self.sched_S[0])])
         raise KeyError(s)
@@ -167,6 +177,9 @@ def apply(inst: Inst, obj, call: dict):
                 ret = obj.recovery_factor(density=(call["mode"] == "density"))
                 raw = ret
                 ret = np.array(ret, dtype=np.float64)
+            elif call["op"] == "setpf":
+                obj.pressure_fracface = inst.pf_alt
+                ret = None
             elif call["op"] == "interp":
                 f = obj.recovery_factor_interpolator()
                 raw = f
@@ -203,7 +216,8 @@ class Digests:
 def canonical_program(obs: dict) -> list[dict]:
     """The minimal fresh-object program whose last call shows abstract observation `obs`."""
     of = obs["of"]
-    sim = {"op": "simulate", "grid": of["grid"], "sched": "none" if of["sched"] == "ctor" else of["sched"]}
+    # "alt": the object is constructed with the alternative scalar (see reference), so the schedule argument is omitted too
+    sim = {"op": "simulate", "grid": of["grid"], "sched": "none" if of["sched"] in ("ctor", "alt") else of["sched"]}
     if obs["kind"] == "sim":
         return [sim]
     if obs["kind"] == "rf":
@@ -215,10 +229,12 @@ def canonical_program(obs: dict) -> list[dict]:
     raise KeyError(obs["kind"])
 
 
-def all_observations(kind: str) -> list[dict]:
+def all_observations(kind: str, setters: bool = False) -> list[dict]:
     if kind == "multiphase":
         return []   # nothing ever succeeds on a MultiPhaseReservoir
     scheds = ["ctor", "S"] if kind == "single" else ["ctor"]
+    if setters and kind == "single":
+        scheds.append("alt")
     out = []
     for g in "ABC":
         for s in scheds:
@@ -233,7 +249,8 @@ def all_observations(kind: str) -> list[dict]:
 
 
 def reference(inst: Inst, obs: dict):
-    o = inst.new(fresh_fluid=True)
+    # the fresh object of an "alt" simulation is one *constructed* with the alternative scalar
+    o = inst.new(fresh_fluid=True, pf=inst.pf_alt if obs["of"]["sched"] == "alt" else None)
     res = None
     for c in canonical_program(obs):
         res = apply(inst, o, c)
@@ -244,7 +261,8 @@ def _reference_group(args):
     """Runs in a freshly spawned interpreter: all observations rooted at ONE simulation (grid, schedule), each on a
     fresh object with a fresh FlowProperties.  A fresh process per simulation means that not even module-level state
     (memoised matrices, global caches) of another simulation can leak into the oracle."""
-    kind, variant, of = args
+    kind, variant, of = args[:3]
+    setters = bool(args[3]) if len(args) > 3 else False
     from .. import env as _env  # noqa: PLC0415
 
     _env.import_bluebonnet()
@@ -252,18 +270,18 @@ def _reference_group(args):
     out = {}
     import json  # noqa: PLC0415
 
-    for obs in all_observations(kind):
+    for obs in all_observations(kind, setters):
         if obs["of"] == of:
             out[json.dumps(obs, sort_keys=True)] = reference(inst, obs)
     return out
 
 
-def reference_table(kind: str, variant: int) -> dict:
+def reference_table(kind: str, variant: int, setters: bool = False) -> dict:
     """abstract observation (json) -> (outcome, projection), computed in fresh interpreters (one per simulation)."""
     import multiprocessing as mp  # noqa: PLC0415
 
     roots = []
-    for obs in all_observations(kind):
+    for obs in all_observations(kind, setters):
         if obs["of"] not in roots:
             roots.append(obs["of"])
     ctx = mp.get_context("spawn")
@@ -271,6 +289,6 @@ def reference_table(kind: str, variant: int) -> dict:
     if not roots:
         return table
     with ctx.Pool(processes=min(8, len(roots)), maxtasksperchild=1) as pool:
-        for part in pool.map(_reference_group, [(kind, variant, of) for of in roots], chunksize=1):
+        for part in pool.map(_reference_group, [(kind, variant, of, setters) for of in roots], chunksize=1):
             table.update(part)
     return table
